@@ -335,6 +335,12 @@ func runC15(c *sim.Ctx, t *testing.T) {
 			other := mids[c.Intn(len(mids), "cascademid")]
 			del := map[string]interface{}{"id": fmt.Sprintf("c%dd", i), "to": "captain", "delete": []interface{}{other}}
 			mk := map[string]interface{}{"id": fmt.Sprintf("c%dc", i), "to": "captain", "update": map[string]interface{}{other: map[string]interface{}{"spec": map[string]interface{}{"inline": vfSpecJSON(1 + c.Intn(2, "version"))}}}}
+			ckind := "cascade"
+			if c.Chance(1, 4, "recreate-without-spec") {
+				ckind = "cascade-nospec"
+				// the new machine is given a state only (it will never move: it has no spec)
+				mk["update"] = map[string]interface{}{other: map[string]interface{}{"state": map[string]interface{}{"node": "start", "bs": map[string]interface{}{"fresh": float64(i)}}}}
+			}
 			seq := []interface{}{del, mk}
 			if c.Chance(1, 3, "createfirst") {
 				seq = []interface{}{mk, del}
@@ -342,7 +348,7 @@ func runC15(c *sim.Ctx, t *testing.T) {
 			} else {
 				exists[other] = true
 			}
-			ops = append(ops, vfOp{kind: "cascade", mid: mid, msg: map[string]interface{}{"to": mid, "emit": map[string]interface{}{mid: seq}}})
+			ops = append(ops, vfOp{kind: ckind, mid: mid, msg: map[string]interface{}{"to": mid, "emit": map[string]interface{}{mid: seq}}})
 		default:
 			ops = append(ops, vfOp{kind: "msg", msg: g.message(1)})
 		}
